@@ -51,6 +51,7 @@ Vary2(d1, d2) == UNION {{[f EXCEPT ![d2] = v] : v \in Dims[d2]} : f \in Vary1(d1
 Vary3(d1, d2, d3) == UNION {{[f EXCEPT ![d3] = v] : v \in Dims[d3]} : f \in Vary2(d1, d2)}
 Singles == UNION {Vary1(d) : d \in DimNames}
 Pairs == UNION {Vary2(d1, d2) : d1, d2 \in DimNames}
+Triples(ds) == UNION {Vary3(d1, d2, d3) : d1, d2, d3 \in ds}
 Sensible(fv) == (fv.cls # "plain") <=> (fv.site # "none")
 
 \* ------------------------------------------------------------------ the model of a feature vector
